@@ -10,6 +10,12 @@ RULE = ("programs over serif's public operations, evaluated stepwise on the real
         "pairs of leaf dtypes x nullable x length 0/1/3), names (tables with repeated/unsanitary/missing names through joins, "
         "aggregates, table arithmetic), tree (random programs of depth <= 4 over 34 operations, one of them `misc`: unique, ~, "
         "eomonth, pluck, head/tail, list << v, Vector.new, 8 broadcast methods/properties — judged by truthfulness alone). "
+        "Added by the gap analysis: forms / bigforms (scripted operand FORMS and object STATES over every leaf dtype: tuple operands, "
+        "bool/int Vector and tuple keys, Vector / tuple / self values, the same object on both sides of <<, >>, v[v], t + t, joins, "
+        "constructor routes, falsy / negative / bytes / timedelta scalars, declared-wider-than-contents operands, keys and aggregands "
+        "given by name / accessor spelling / bare / tuple, vectors and columns renamed in place after use, table unary / << / == / "
+        "copy / reductions / 2-D selection (no model rule: truthfulness in Lean, names judged in Python), vectors of 300 and 1100 "
+        "elements with the deciding element last), treex / big (random programs over all of that). "
         "non-trivial = at least one non-leaf operation returned a vector or table")
 ASSUMPTIONS = [
     "elements are instances of exactly the pooled classes (None, bool, int, float, complex, str, bytes, date, datetime, list, tuple, "
@@ -20,7 +26,7 @@ ASSUMPTIONS = [
     "harness with plain Python (they are the subject of C07/C09/C12/C14)",
     "a step whose observed element types differ from the model's (or that the model refuses) is judged by truthfulness only",
 ]
-BUDGET_S = {"quick": 28, "thorough": 400}
+BUDGET_S = {"quick": 36, "thorough": 480}
 
 
 def generate(rng, tier):
